@@ -52,7 +52,31 @@ def shuffled(ld, kind, n, b, rngkind, seed, dict_backed=False):
         return ds.shuffle(True, **kw)
     if kind == 'local':
         return ds.shuffle(True, buffer_size=b, **kw)
+    if kind == 'reshuffle+catch':
+        # catch() iterates a frozen copy made at the start of every iteration
+        return ds.shuffle(True, **kw).catch()
+    if kind == 'reshuffle+freeze':
+        return _FreezeOnIter(ds.shuffle(True, **kw))
+    if kind == 'reshuffle+map+catch':
+        return ds.shuffle(True, **kw).map(_ident).catch()
     raise ValueError(kind)
+
+
+def _ident(x):
+    return x
+
+
+class _FreezeOnIter:
+    """Every iter() is an iteration over a fresh copy(freeze=True)."""
+
+    def __init__(self, ds):
+        self.ds = ds
+
+    def __iter__(self):
+        return iter(self.ds.copy(freeze=True))
+
+    def __len__(self):
+        return len(self.ds)
 
 
 def is_perm(out, n):
@@ -243,7 +267,8 @@ def shards(tier, seed):
             out.append({'name': f'single-{kind}-{rk}', 'what': 'single',
                         'kind': kind, 'rng': rk, **lim})
     out.append({'name': 'sampling-tile', 'what': 'sampling', **lim})
-    for kind in ('reshuffle', 'local', 'once'):
+    for kind in ('reshuffle', 'local', 'once', 'reshuffle+catch', 'reshuffle+freeze',
+                 'reshuffle+map+catch'):
         for rk in RNG_KINDS:
             out.append({'name': f'inter-{kind}-{rk}', 'what': 'inter',
                         'kind': kind, 'rng': rk, **lim})
